@@ -1,0 +1,26 @@
+//go:build verif
+
+// Machine-checked contracts of the Proxy contract (comment-only; read by the
+// verifier in /verif, ignored by every compiler because of the build tag).
+
+package proxy
+
+/*@
+module authz
+props C03 C16
+use common core
+dialect neovm
+// Authorisation table (C03): one line per exported method with the witness its documentation requires.
+// Checked by the zero-annotation sweep: on every normal exit that changed state (storage write,
+// notification, state-changing call) the formula holds; `safe` methods never change state.
+// alphabet() = 2/3+1 multisig of the chain committee, cmtaddr() = its majority multisig.
+
+witness Update [C03,C16] : W(cmtaddr())
+safe OnNEP17Payment [C03]
+safe Verify [C03]
+safe Version [C03]
+
+func Verify() (r)
+  pure
+  ensures [C03] r == (W(alphabet()) || W(cmtaddr()))
+@*/
